@@ -82,7 +82,7 @@ def gen_gene(rng, *, small_p: float = 0.45, bridge_p: float = 0.3, tta_p: float 
         lengths_bio = _split(rng, total, exons, first_min=lead + 1)
         if lengths_bio is None:
             continue
-        gaps = [rng.randrange(1, 7) for _ in range(exons - 1)]
+        gaps = [rng.choice([0, 1, 1, 2, 2, 3, 3, 4, 5, 6]) for _ in range(exons - 1)]
         lengths_travel = lengths_bio if strand == 1 else lengths_bio[::-1]
         span = total + sum(gaps)
         circular = rng.random() < 0.6
